@@ -336,6 +336,17 @@ def cargo_build(package, release=False, hooks=True, bins=None, timeout=3000):
         return rc == 0, out, os.path.join(env["CARGO_TARGET_DIR"], "release" if release else "debug")
 
 
+def cargo_build_samply(timeout=3000):
+    """Build the samply binary itself from /repo's current working tree (with the hook cfg).  Returns (ok, log, path)."""
+    with lock("cargo"):
+        env = {"CARGO_TARGET_DIR": os.path.join(CACHE, "target-samply"), "RUSTFLAGS": "--cfg samply_verif"}
+        try:
+            rc, out = sh(["cargo", "build", "--offline", "-p", "samply"], cwd=REPO, env=env, timeout=timeout)
+        except subprocess.TimeoutExpired:
+            return False, "cargo build -p samply timed out", None
+        return rc == 0, out, os.path.join(env["CARGO_TARGET_DIR"], "debug", "samply")
+
+
 def run_lines(binpath, args, lines, timeout=600, env=None):
     inp = "\n".join(lines) + "\n"
     e = dict(os.environ)
